@@ -234,3 +234,235 @@ def hdf5_keys(model, ci, fn, group, mode):
                 and isinstance(n.comparators[0], ast.Name) and n.comparators[0].id == group and mode == 'r':
             record(n.left, n)
     return out
+
+
+# ---------------------------------------------------------------- dependence parity between constructor and loader
+class _DepGraph:
+    """flow-insensitive "is computed from" graph over names of several functions: 'self.x' attributes of the object,
+    '<fn>:name' locals, 'P:<param>' constructor parameters, 'K:<key>' stored keys."""
+
+    def __init__(self):
+        self.defs = {}
+
+    def add(self, tgt, srcs):
+        self.defs.setdefault(tgt, set()).update(s for s in srcs if s != tgt)
+
+    def closure(self, names, leaf=('P:', 'K:')):
+        seen, todo, out = set(), list(names), set()
+        while todo:
+            x = todo.pop()
+            if x in seen:
+                continue
+            seen.add(x)
+            if x.startswith(leaf):
+                out.add(x)
+                if x.startswith('K:'):
+                    todo.extend(self.defs.get(x, ()))
+                continue
+            todo.extend(self.defs.get(x, ()))
+        return out
+
+
+def _dep_names(e, fnkey, obj, params, expand=None):
+    """names an expression is computed from: obj.x -> 'self.x', other locals -> '<fn>:name', parameters -> as bound."""
+    out = set()
+    for x in ast.walk(e):
+        if isinstance(x, ast.Attribute) and isinstance(x.value, ast.Name) and x.value.id == obj:
+            out.add('self.' + x.attr)
+        elif isinstance(x, ast.Call) and dotted(x.func) == 'getattr' and len(x.args) >= 2 and isinstance(x.args[0], ast.Name) \
+                and x.args[0].id == obj:
+            if isinstance(x.args[1], ast.Constant):
+                out.add('self.' + str(x.args[1].value))
+            elif expand is not None and isinstance(x.args[1], ast.Name) and x.args[1].id in expand:
+                out.add('self.' + expand[x.args[1].id])
+        elif isinstance(x, ast.Name) and x.id != obj and isinstance(x.ctx, ast.Load):
+            if expand is not None and x.id in expand:
+                continue
+            out.add(params.get(x.id, '%s:%s' % (fnkey, x.id)))
+    return out
+
+
+def _fill_graph(model, ci, g, fn, fnkey, obj, params, group=None, mode=None):
+    """add the assignments of ``fn`` to ``g``.  ``group``: name of the HDF5 group variable (writer: keys become targets,
+    'w'; loader: key reads become sources 'K:<key>', 'r').  setattr / getattr loops over class tuples are expanded."""
+    def loop_expansions(node):
+        envs = [{}]
+        lp = getattr(node, '_parent', None)
+        while lp is not None and lp is not fn:
+            if isinstance(lp, ast.For) and isinstance(lp.target, ast.Name):
+                d = dotted(lp.iter) or ''
+                tup = class_tuple(model, ci, d.split('.')[-1]) if d and d.split('.')[0] in ('self', 'cls', obj) else None
+                if tup is not None:
+                    envs = [dict(e, **{lp.target.id: x}) for e in envs for x in tup]
+            lp = getattr(lp, '_parent', None)
+        return envs
+
+    def key_text(k, env):
+        return _fold(k, env) or unparse(k)
+
+    def sources(e, env):
+        out = _dep_names(e, fnkey, obj, params, expand=env)
+        if group is not None and mode == 'r':
+            for x in ast.walk(e):
+                if isinstance(x, ast.Subscript) and isinstance(x.value, ast.Name) and x.value.id == group:
+                    out.add('K:' + key_text(x.slice, env))
+                elif isinstance(x, ast.Subscript) and isinstance(x.value, ast.Attribute) and x.value.attr == 'attrs' \
+                        and isinstance(x.value.value, ast.Name) and x.value.value.id == group:
+                    out.add('K:attr:' + key_text(x.slice, env))
+            out.discard('%s:%s' % (fnkey, group))
+        return out
+
+    def targets(t, env):
+        out = []
+        for x in ([t] if not isinstance(t, (ast.Tuple, ast.List)) else t.elts):
+            if isinstance(x, (ast.Tuple, ast.List)):
+                out += targets(x, env)
+                continue
+            base = x
+            if isinstance(base, ast.Subscript) and isinstance(base.value, ast.Attribute) and base.value.attr == 'attrs' \
+                    and isinstance(base.value.value, ast.Name) and base.value.value.id == group:
+                if mode == 'w':
+                    out.append('K:attr:' + key_text(base.slice, env))
+                continue
+            while isinstance(base, ast.Subscript) and not (isinstance(base.value, ast.Name) and base.value.id == group):
+                base = base.value
+            if isinstance(base, ast.Subscript):      # group[key] = ...
+                if mode == 'w':
+                    out.append('K:' + key_text(base.slice, env))
+            elif isinstance(base, ast.Attribute) and isinstance(base.value, ast.Name) and base.value.id == obj:
+                out.append('self.' + base.attr)
+            elif isinstance(base, ast.Name):
+                out.append(params.get(base.id, '%s:%s' % (fnkey, base.id)))
+        return out
+
+    for n in walk_local(fn):
+        for env in loop_expansions(n):
+            if isinstance(n, (ast.Assign, ast.AugAssign, ast.AnnAssign)) and getattr(n, 'value', None) is not None:
+                src = sources(n.value, env)
+                tg = n.targets if isinstance(n, ast.Assign) else [n.target]
+                for t in tg:
+                    extra = set()
+                    for x in ast.walk(t):
+                        if isinstance(x, ast.Subscript) and not (isinstance(x.value, ast.Name) and x.value.id == group):
+                            extra |= sources(x.slice, env)
+                    for name in targets(t, env):
+                        g.add(name, src | extra)
+            elif isinstance(n, (ast.For, ast.comprehension)):
+                src = sources(n.iter, env)
+                for x in ast.walk(n.target):
+                    if isinstance(x, ast.Name):
+                        g.add(params.get(x.id, '%s:%s' % (fnkey, x.id)), src)
+            elif isinstance(n, ast.Call):
+                d = dotted(n.func) or ''
+                if d == 'setattr' and len(n.args) == 3 and isinstance(n.args[0], ast.Name) and n.args[0].id == obj:
+                    a = n.args[1]
+                    name = a.value if isinstance(a, ast.Constant) else env.get(a.id) if isinstance(a, ast.Name) else None
+                    if name is not None:
+                        g.add('self.' + str(name), sources(n.args[2], env))
+                elif isinstance(n.func, ast.Attribute) and isinstance(getattr(n, '_parent', None), ast.Expr):
+                    # in-place update through a method call: receiver <- arguments ; sub-object writer: key <- receiver
+                    recv = n.func.value
+                    args = set()
+                    for a in list(n.args) + [k.value for k in n.keywords]:
+                        args |= sources(a, env)
+                    cg = [c for a in n.args for c in ast.walk(a) if isinstance(c, ast.Call) and isinstance(c.func, ast.Attribute)
+                          and c.func.attr in ('create_group', 'require_group') and isinstance(c.func.value, ast.Name) and c.func.value.id == group]
+                    if cg and mode == 'w':
+                        g.add('K:' + key_text(cg[0].args[0], env), sources(recv, env))
+                        continue
+                    base = recv
+                    while isinstance(base, ast.Subscript):
+                        base = base.value
+                    if isinstance(base, ast.Attribute) and isinstance(base.value, ast.Name) and base.value.id == obj:
+                        g.add('self.' + base.attr, args)
+                    elif isinstance(base, ast.Name) and base.id != group:
+                        g.add(params.get(base.id, '%s:%s' % (fnkey, base.id)), args)
+                if group is not None and mode == 'w' and isinstance(n.func, ast.Attribute) and n.func.attr in ('create_dataset',) \
+                        and isinstance(n.func.value, ast.Name) and n.func.value.id == group and n.args:
+                    src = set()
+                    for a in n.args[1:] + [k.value for k in n.keywords]:
+                        src |= sources(a, env)
+                    g.add('K:' + key_text(n.args[0], env), src)
+
+
+def dependence_parity(model, ci, ctor='__init__', writer='addhdf5', loader='loadhdf5', alias=None):
+    """For every attribute that both the constructor path and the loader assign: the constructor parameters it depends on
+    (through locals, other attributes, methods called on self during construction) must all be parameters its reloaded
+    value depends on (through the stored keys, each of which carries the dependencies of what the writer stored under
+    it).  Returns [(attr, sorted(missing), loader node, sorted(ctor deps), sorted(loader deps))]; a reloaded attribute
+    that has *lost* a dependency cannot equal the original for every constructor argument."""
+    o_init, init = model.find_method(ci, ctor)
+    o_w, wr = model.find_method(ci, writer)
+    o_l, ld = model.find_method(ci, loader)
+    if init is None or wr is None or ld is None:
+        raise AnalysisError('%s: constructor / writer / loader not all found' % ci.name)
+    g = _DepGraph()
+    # constructor path
+    todo, seen = [(ctor, {a.arg: 'P:' + a.arg for a in init.args.args[1:] + init.args.kwonlyargs})], set()
+    while todo:
+        m, params = todo.pop()
+        if m in seen:
+            continue
+        seen.add(m)
+        owner, fn = model.find_method(ci, m)
+        if fn is None or not fn.args.args:
+            continue
+        s = fn.args.args[0].arg
+        _fill_graph(model, ci, g, fn, m, s, params)
+        for c in walk_local(fn):
+            if isinstance(c, ast.Call) and isinstance(c.func, ast.Attribute) and isinstance(c.func.value, ast.Name) and c.func.value.id == s:
+                o2, f2 = model.find_method(ci, c.func.attr)
+                if f2 is None or not f2.args.args:
+                    continue
+                p2 = {}
+                names = [a.arg for a in f2.args.args[1:]]
+                for nm, a in list(zip(names, c.args)) + [(k.arg, k.value) for k in c.keywords if k.arg]:
+                    key = '%s:%s' % (c.func.attr, nm)
+                    p2[nm] = key
+                    g.add(key, _dep_names(a, m, s, params))
+                for nm in names + [a.arg for a in f2.args.kwonlyargs]:
+                    p2.setdefault(nm, '%s:%s' % (c.func.attr, nm))
+                todo.append((c.func.attr, p2))
+                # the value returned by self.m(...) depends on what m returns
+                par = getattr(c, '_parent', None)
+                for r in walk_local(f2):
+                    if isinstance(r, ast.Return) and r.value is not None:
+                        g.add('%s:<return>' % c.func.attr, _dep_names(r.value, c.func.attr, f2.args.args[0].arg, p2))
+                if isinstance(par, ast.Assign):
+                    for t in par.targets:
+                        for x in ast.walk(t):
+                            if isinstance(x, ast.Attribute) and isinstance(x.value, ast.Name) and x.value.id == s and isinstance(x.ctx, ast.Store):
+                                g.add('self.' + x.attr, {'%s:<return>' % c.func.attr})
+                            elif isinstance(x, ast.Name) and isinstance(x.ctx, ast.Store):
+                                g.add(params.get(x.id, '%s:%s' % (m, x.id)), {'%s:<return>' % c.func.attr})
+    ctor_attrs = {k[5:] for k in g.defs if k.startswith('self.')}
+    # writer: keys <- attributes
+    ws = wr.args.args[0].arg
+    wgroup = wr.args.args[1].arg if len(wr.args.args) > 1 else None
+    _fill_graph(model, ci, g, wr, writer, ws, {}, group=wgroup, mode='w')
+    # loader: a separate graph whose key leaves are resolved through the writer
+    lg = _DepGraph()
+    largs = [a.arg for a in ld.args.args]
+    lgroup = next((a for a in largs if 'HDF5' in a or 'group' in a.lower()), largs[-1])
+    lparams = {a: 'P:' + (alias or {}).get(a, a) for a in largs[1:] if a != lgroup}
+    obj = None
+    for n in ld.body:
+        if isinstance(n, ast.Assign) and isinstance(n.targets[0], ast.Name) and isinstance(n.value, ast.Call) \
+                and (unparse(n.value.func) in ('cls', 'cls.__new__', ci.name, 'object.__new__')):
+            obj = n.targets[0].id
+            break
+    if obj is None:
+        raise AnalysisError('%s.%s: the object under construction was not found' % (ci.name, loader))
+    _fill_graph(model, ci, lg, ld, loader, obj, lparams, group=lgroup, mode='r')
+    out = []
+    assigned = attrs_assigned_on(model, ci, ld, obj)
+    for a, node in sorted(assigned.items(), key=lambda kv: kv[0]):
+        if a not in ctor_attrs:
+            continue
+        dc = {x[2:] for x in g.closure({'self.' + a}) if x.startswith('P:')}
+        leaves = lg.closure({'self.' + a})
+        dl = {x[2:] for x in leaves if x.startswith('P:')}
+        for k in [x for x in leaves if x.startswith('K:')]:
+            dl |= {x[2:] for x in g.closure({k}) if x.startswith('P:')}
+        out.append((a, sorted(dc - dl), node, sorted(dc), sorted(dl)))
+    return out
